@@ -531,7 +531,13 @@ impl Monitor for Hub {
             mon.on_fsync_done(ok);
         }
     }
-    fn sched(&self, point: &'static str, _a: u64, _b: u64) {
+    fn sched(&self, point: &'static str, _a: u64, b: u64) {
+        // flush()'s retry loop sleeps up to 1 ms per round and only goes round again while a worker reports
+        // retries (a reader holding an extent, a successor not durable yet): 30000 rounds of one call on a
+        // device that answers is a flush that will never return
+        if point == "force_flush.loop" && b == 30_000 {
+            crate::callwatch::logical_livelock("flush", b);
+        }
         if point == "read.before_pread" {
             THREAD_PREADS.with(|c| c.set(c.get() + 1));
         }
